@@ -16,16 +16,18 @@
         let v: [u64; 8] = kani::any();
         let mut buf: [u8; 63] = kani::any();            // arbitrary previous content
         pack_bits_block(&v, &mut buf[..w as usize], w);
+        let mut ok = true;
         let mut i = 0usize;
         while i < 8 {
             let mut j = 0u8;
-            while j < w {                               // constant positions: 8*w one-bit comparisons
+            while j < w {                               // constant positions: 8*w one-bit comparisons, one property
                 let k = i * (w as usize) + j as usize;
-                assert!(vk_stream_bit(&buf, k) == ((v[i] >> (w - 1 - j)) & 1) as u8);
+                ok &= vk_stream_bit(&buf, k) == ((v[i] >> (w - 1 - j)) & 1) as u8;
                 j += 1;
             }
             i += 1;
         }
+        assert!(ok);
     }
     fn vk_pack_block_stream(lo: u8, hi: u8) { let mut c = lo; while c <= hi { vk_pack_block_stream_one(c); c += 1; } }
 
@@ -34,17 +36,19 @@
         let buf: [u8; 63] = kani::any();
         let mut out: [u64; 8] = kani::any();            // arbitrary previous content
         unpack_bits_block(&mut out, &buf[..w as usize], w);
+        let mut ok = true;
         let mut i = 0usize;
         while i < 8 {
             let mut j = 0u8;
             while j < w {
                 let k = i * (w as usize) + j as usize;
-                assert!(((out[i] >> (w - 1 - j)) & 1) as u8 == vk_stream_bit(&buf, k));
+                ok &= ((out[i] >> (w - 1 - j)) & 1) as u8 == vk_stream_bit(&buf, k);
                 j += 1;
             }
-            assert!(out[i] & !vk_mask(w) == 0);
+            ok &= out[i] & !vk_mask(w) == 0;
             i += 1;
         }
+        assert!(ok);
     }
     fn vk_unpack_block_stream(lo: u8, hi: u8) { let mut c = lo; while c <= hi { vk_unpack_block_stream_one(c); c += 1; } }
 
